@@ -38,6 +38,12 @@ func runC05(c *mon.Ctx) {
 		if i%4 == 1 {
 			c05Alphabets(c, r.Fork(15))
 		}
+		if i%4 == 2 {
+			c09DeriveStorm(c, r.Fork(16)) // identities with long keys derived by 64 goroutines at once: one object and one counter each
+		}
+		if i%8 == 3 {
+			c05ProcsChange(c, r.Fork(17))
+		}
 	})
 }
 
@@ -701,4 +707,48 @@ func c05Alphabets(c *mon.Ctx, r *mon.Rand) {
 		}
 	}
 	c.Event("alphabet-cases", 1)
+}
+
+// c05ProcsChange: the number of processors the runtime may use changes
+// between two derivations of the same identities (a container quota applied
+// after package-level scopes were built): the second derivation is handed the
+// objects of the first, and counters reached both ways are one counter.
+func c05ProcsChange(c *mon.Ctx, r *mon.Rand) {
+	pr := mon.NewPlainRec(false)
+	shards := uint(0)
+	if r.Bool() {
+		shards = uint(r.Range(3, 64))
+	}
+	root, _ := vNewRoot(tally.ScopeOptions{Reporter: pr, OmitCardinalityMetrics: true}, 0, shards)
+	n := r.Range(20, 60)
+	first := make([]tally.Scope, n)
+	for k := range first {
+		first[k] = root.Tagged(map[string]string{"k": fmt.Sprint(k)})
+		first[k].Counter("c").Inc(1)
+	}
+	before := runtime.GOMAXPROCS(0)
+	to := r.Range(1, 2)
+	runtime.GOMAXPROCS(to)
+	bad := 0
+	for k := range first {
+		again := root.Tagged(map[string]string{"k": fmt.Sprint(k)})
+		again.Counter("c").Inc(1)
+		if ptrOf(again) != ptrOf(first[k]) {
+			bad++
+		}
+	}
+	runtime.GOMAXPROCS(before)
+	desc := map[string]interface{}{"shards": shards, "gomaxprocs_before": before, "gomaxprocs_during_second_derivation": to, "identities": n}
+	if bad > 0 {
+		c.Violation("same-identity-not-shared/after-gomaxprocs-change", map[string]interface{}{"why": fmt.Sprintf("%d of %d identities derived again after GOMAXPROCS went from %d to %d were handed another object than the first time", bad, n, before, to), "case": desc})
+	}
+	tally.VerifReportPass(root)
+	_, agg, _ := pr.Snapshot()
+	for k := range first {
+		if a := agg[mon.IdentKey("c", map[string]string{"k": fmt.Sprint(k)})]; a.Sum != 2 || a.N != 1 {
+			c.Violation("same-identity-not-shared/after-gomaxprocs-change", map[string]interface{}{"why": fmt.Sprintf("counter c{k=%d}: %d deliveries adding up to %d in one pass; it was incremented once through each derivation (one counter, one delivery of 2)", k, a.N, a.Sum), "case": desc})
+			break
+		}
+	}
+	c.Event("identities-derived-again-after-a-gomaxprocs-change", int64(n))
 }
